@@ -364,34 +364,26 @@ func (m *Message) ReadFrom(r io.Reader) error {
 }
 
 func readSection(reader *bufio.Reader, readN int) ([]byte, error) {
-	buf := make([]byte, readN)
-
-	var err error
-	n := 0
-	for n < readN {
-		m, err := reader.Read(buf[n:])
-		if err != nil {
-			break
-		}
-		n += m
+	if readN < 0 {
+		return nil, fmt.Errorf("Invalid section size %d", readN)
 	}
 
-	if err != nil {
-		return buf, err
-	}
+	// Grow the buffer as data arrives instead of trusting the declared size.
+	var buf bytes.Buffer
+	n, _ := io.CopyN(&buf, reader, int64(readN))
 
 	end, err := reader.ReadString('\n')
 	switch {
-	case n != readN:
-		return buf, io.ErrUnexpectedEOF
+	case int(n) != readN:
+		return buf.Bytes(), io.ErrUnexpectedEOF
 	case err == io.EOF:
 		// That's ok
 	case err != nil:
-		return buf, err
+		return buf.Bytes(), err
 	case end != "\r\n":
-		return buf, errors.New("Unexpected end of section")
+		return buf.Bytes(), errors.New("Unexpected end of section")
 	}
-	return buf, nil
+	return buf.Bytes(), nil
 }
 
 // Returns true if the given Address is the only receiver of this Message.
